@@ -60,6 +60,7 @@ type Sched struct {
 	SpawnNode int
 	Stick     float64
 	Inactive  map[string]bool
+	StallSites map[string]uint64 // a task parking at this site is stalled for n steps (slow goroutine fault)
 	SiteHits  map[string]uint64
 	dead      map[int]bool // crashed nodes
 	hash      uint64
@@ -84,6 +85,7 @@ func New(seed uint64) *Sched {
 		objCnt:   map[string]int{},
 		rng:      NewRand(seed),
 		Inactive: map[string]bool{},
+		StallSites: map[string]uint64{},
 		SiteHits: map[string]uint64{},
 		dead:     map[int]bool{},
 		regStep:  map[string]uint64{},
@@ -274,6 +276,9 @@ func (s *Sched) park(site string, keys []interface{}, poll bool, cond func() boo
 	t.epoch = s.epoch
 	t.cond = cond
 	s.SiteHits[site]++
+	if n := s.StallSites[site]; n > 0 {
+		t.stall = s.step + n
+	}
 	s.mu.Unlock()
 	<-t.resume
 	if t.kill {
